@@ -95,43 +95,7 @@ def run(ctx):
     r = ctx.rule("R11.3", "commit only after success: in try_produce_token_from_lexeme emit_chunk_before_lexeme dominates the token call, which dominates consume_lexeme; the token call's error edge returns without consume_lexeme", "E-MIR", floor=2)
     sm.check_commit_order(mir, r)
 
-    # ------------------------------------------------------------------ R11.4
-    r = ctx.rule("R11.4", "flags are independent: should_bail_out_for is an exhaustive match MemoryLimitExceeded->memory flag, ContentHandlerError->handler flag, ParsingAmbiguity->false; the flags are read nowhere else", "E-AST+E-MIR", floor=3)
-    # each flag travels unchanged from Settings to the TransformStream field that should_bail_out_for reads
-    for fn_, agg_, pairs in (("HtmlRewriter::new", "TransformStreamSettings", (("graceful_bail_out_on_memory_limit_exceeded", "settings.memory_settings.graceful_bail_out_on_memory_limit_exceeded"), ("graceful_bail_out_on_content_handler_error", "settings.graceful_bail_out_on_content_handler_error"))),
-                              ("TransformStream::new", "TransformStream", (("graceful_bail_out_on_memory_limit_exceeded", "settings.graceful_bail_out_on_memory_limit_exceeded"), ("graceful_bail_out_on_content_handler_error", "settings.graceful_bail_out_on_content_handler_error")))):
-        f_ = mir.fn(fn_)
-        ag_ = [st["rv"] for b in f_.blocks for st in b["stmts"] if st["k"] == "assign" and st["rv"]["k"] == "agg" and (st["rv"].get("name") or "").endswith("::" + agg_)]
-        d_ = dict(zip(ag_[0]["fields"], [f_.deep(o) for o in ag_[0]["ops"]])) if len(ag_) == 1 else {}
-        for fld_, want_ in pairs:
-            r.inst(fn_ + "|" + fld_, sample={"source": d_.get(fld_)})
-            if d_.get(fld_) != want_:
-                r.violate(fn_ + "|" + fld_, f"{fn_} fills {agg_}.{fld_} from `{d_.get(fld_)}` instead of `{want_}`: the two graceful bail-out flags are no longer independent (e.g. the memory flag alone would also recover content handler errors)", f_.loc())
-    f = idx.one("should_bail_out_for", owner="TransformStream")
-    table = {}
-    for n in walk(f.node["body"]):
-        if n.get("k") == "Match":
-            for arm in n["arms"]:
-                pat = arm["pat"]
-                nm = (pat.get("path") or pat.get("s") or "").split("::")[-1].split("(")[0].strip()
-                table[nm] = (arm["body"].get("s") or "").replace(" ", "").strip("{}")
-    want = {
-        "MemoryLimitExceeded": "self.graceful_bail_out_on_memory_limit_exceeded",
-        "ContentHandlerError": "self.graceful_bail_out_on_content_handler_error",
-        "ParsingAmbiguity": "false",
-    }
-    for k, v in want.items():
-        r.inst(k, sample={"variant": k, "decides": table.get(k)})
-        if table.get(k) != v:
-            r.violate(k, f"should_bail_out_for: {k} is decided by {table.get(k)!r}, expected {v!r}", "src/transform_stream/mod.rs")
-    extra = set(table) - set(want)
-    if extra:
-        r.violate("extra", f"should_bail_out_for has unexpected arms {sorted(extra)}", "src/transform_stream/mod.rs")
-    for fld in ("graceful_bail_out_on_memory_limit_exceeded", "graceful_bail_out_on_content_handler_error"):
-        readers = sorted(set(f_.key for f_ in mir.fns if not mir.is_test_fn(f_) and ("TransformStream." + fld) in sm.fields_read(f_)))
-        r.inst("readers:" + fld, sample={"field": fld, "readers": readers})
-        if readers != ["TransformStream::should_bail_out_for"]:
-            r.violate("readers:" + fld, f"TransformStream.{fld} is read by {readers}; only should_bail_out_for may decide on it", "src/transform_stream/mod.rs")
+    rule_flag_independence(ctx, idx, mir)
 
     # ------------------------------------------------------------------ R11.5
     r = ctx.rule("R11.5", "bail-out handlers run once and only on bail-out: handle_bail_out is called only from run_bail_out_handlers, which is called only at the bail-out sites (none inside a loop); the controller iterates bail_out_handlers front to back", "E-MIR", floor=3)
@@ -216,3 +180,43 @@ def rule_bail_out_sites(ctx, mir, rid="R11.1"):
             if bad:
                 r.violate(key + "|false-edge", f"{f.key}: bail-out handlers/flush reachable when should_bail_out_for is false", f.loc())
     return r, sites
+
+
+def rule_flag_independence(ctx, idx, mir, rid="R11.4"):
+    # ------------------------------------------------------------------ R11.4
+    r = ctx.rule(rid, "flags are independent: should_bail_out_for is an exhaustive match MemoryLimitExceeded->memory flag, ContentHandlerError->handler flag, ParsingAmbiguity->false; the flags are read nowhere else", "E-AST+E-MIR", floor=3)
+    # each flag travels unchanged from Settings to the TransformStream field that should_bail_out_for reads
+    for fn_, agg_, pairs in (("HtmlRewriter::new", "TransformStreamSettings", (("graceful_bail_out_on_memory_limit_exceeded", "settings.memory_settings.graceful_bail_out_on_memory_limit_exceeded"), ("graceful_bail_out_on_content_handler_error", "settings.graceful_bail_out_on_content_handler_error"))),
+                              ("TransformStream::new", "TransformStream", (("graceful_bail_out_on_memory_limit_exceeded", "settings.graceful_bail_out_on_memory_limit_exceeded"), ("graceful_bail_out_on_content_handler_error", "settings.graceful_bail_out_on_content_handler_error")))):
+        f_ = mir.fn(fn_)
+        ag_ = [st["rv"] for b in f_.blocks for st in b["stmts"] if st["k"] == "assign" and st["rv"]["k"] == "agg" and (st["rv"].get("name") or "").endswith("::" + agg_)]
+        d_ = dict(zip(ag_[0]["fields"], [f_.deep(o) for o in ag_[0]["ops"]])) if len(ag_) == 1 else {}
+        for fld_, want_ in pairs:
+            r.inst(fn_ + "|" + fld_, sample={"source": d_.get(fld_)})
+            if d_.get(fld_) != want_:
+                r.violate(fn_ + "|" + fld_, f"{fn_} fills {agg_}.{fld_} from `{d_.get(fld_)}` instead of `{want_}`: the two graceful bail-out flags are no longer independent (e.g. the memory flag alone would also recover content handler errors)", f_.loc())
+    f = idx.one("should_bail_out_for", owner="TransformStream")
+    table = {}
+    for n in walk(f.node["body"]):
+        if n.get("k") == "Match":
+            for arm in n["arms"]:
+                pat = arm["pat"]
+                nm = (pat.get("path") or pat.get("s") or "").split("::")[-1].split("(")[0].strip()
+                table[nm] = (arm["body"].get("s") or "").replace(" ", "").strip("{}")
+    want = {
+        "MemoryLimitExceeded": "self.graceful_bail_out_on_memory_limit_exceeded",
+        "ContentHandlerError": "self.graceful_bail_out_on_content_handler_error",
+        "ParsingAmbiguity": "false",
+    }
+    for k, v in want.items():
+        r.inst(k, sample={"variant": k, "decides": table.get(k)})
+        if table.get(k) != v:
+            r.violate(k, f"should_bail_out_for: {k} is decided by {table.get(k)!r}, expected {v!r}", "src/transform_stream/mod.rs")
+    extra = set(table) - set(want)
+    if extra:
+        r.violate("extra", f"should_bail_out_for has unexpected arms {sorted(extra)}", "src/transform_stream/mod.rs")
+    for fld in ("graceful_bail_out_on_memory_limit_exceeded", "graceful_bail_out_on_content_handler_error"):
+        readers = sorted(set(f_.key for f_ in mir.fns if not mir.is_test_fn(f_) and ("TransformStream." + fld) in sm.fields_read(f_)))
+        r.inst("readers:" + fld, sample={"field": fld, "readers": readers})
+        if readers != ["TransformStream::should_bail_out_for"]:
+            r.violate("readers:" + fld, f"TransformStream.{fld} is read by {readers}; only should_bail_out_for may decide on it", "src/transform_stream/mod.rs")
